@@ -293,7 +293,7 @@ Lemma track_numeric s u off : NI s -> pow_in_unit (u_pow u) = true -> in_i64 off
   let g := tsub (u_now u) (p_t s) in
   exists s' evs q, do_track s u off = (s', evs, q) /\ NI s' /\
     p_mode s' = 3%Z /\ p_t0 s' = p_t0 s /\ p_t s' = u_now u /\ p_epoch s' = p_epoch s /\
-    (evs = [] \/ exists o d f, evs = [EAdjust o d f] /\ fis_finite f = true /\
+    ((evs = [] /\ g = 0%Z) \/ exists o d f, evs = [EAdjust o d f] /\ fis_finite f = true /\
        ((g < max_gap_ns)%Z -> (sec_ns <= d /\ d <= sec_ns * ceil_div g sec_ns /\ 2000 * Z.abs o <= d)%Z)).
 Proof.
   intros HNI Hw Hoff Hm Hg g. unfold do_track.
@@ -337,7 +337,14 @@ Proof.
   eexists _, _, _. split; [reflexivity|].
   split; [unfold NI; cbn [p_a p_b p_i]; repeat split; try assumption; lra|].
   cbn [p_mode p_t0 p_t p_epoch]. repeat (split; [reflexivity|]).
-  destruct (fgt d fzero) eqn:Gd; [|left; reflexivity].
+  destruct (fgt d fzero) eqn:Gd.
+  2:{ left. split; [reflexivity|]. destruct (Z.eq_dec g 0) as [G0|G0]; [exact G0|exfalso].
+      assert (Pd : 0 < R dt) by (apply dur_seconds_pos; lia).
+      assert (N2 : (1 <= n)%Z).
+      { subst n. destruct (Z_le_gt_dec 1 (Zceil (R dt))) as [L|L]; [exact L|exfalso].
+        assert (Zc : Zceil (R dt) = 0%Z) by lia. pose proof (Zceil_ub (R dt)) as U. rewrite Zc in U. cbn in U. lra. }
+      assert (Gt : R d > R fzero) by (rewrite Rd; cbn; apply IZR_lt; lia).
+      apply (fgt_fin d fzero Fd eq_refl) in Gt. congruence. }
   right. eexists _, _, _. split; [reflexivity|]. split; [exact Fi'|].
   intros Hgap.
   apply (fgt_fin d fzero Fd eq_refl) in Gd. rewrite Rd in Gd. cbn in Gd.
@@ -373,9 +380,9 @@ Definition Rel (s : pll) (o : ost) : Prop :=
   o_started o = true /\ o_mono o = true /\
   p_epoch s = o_epoch o /\ p_t s = o_prev o /\
   o_start o <= p_t0 s <= p_t s /\
-  ((p_mode s = 1 /\ p_t0 s = o_start o /\ o_stepped o = false /\ o_slewing o = false) \/
-   (p_mode s = 2 /\ o_slewing o = false /\ step_wait_ns < p_t0 s - o_start o) \/
-   (p_mode s = 3 /\ step_wait_ns < p_t0 s - o_start o)) /\
+  ((p_mode s = 1 /\ p_t0 s = o_start o /\ o_decided o = false /\ o_slewing o = false) \/
+   (p_mode s = 2 /\ o_decided o = true /\ o_slewing o = false) \/
+   (p_mode s = 3 /\ o_decided o = true)) /\
   NI s.
 
 Definition Rel0 (s : pll) (o : ost) : Prop := o = ost_init /\ p_mode s = 0 /\ NI s.
@@ -383,20 +390,19 @@ Definition Rel0 (s : pll) (o : ost) : Prop := o = ost_init /\ p_mode s = 0 /\ NI
 Lemma Rel_intro s o :
   o_started o = true -> o_mono o = true -> p_epoch s = o_epoch o -> p_t s = o_prev o ->
   o_start o <= p_t0 s -> p_t0 s <= p_t s ->
-  ((p_mode s = 1 /\ p_t0 s = o_start o /\ o_stepped o = false /\ o_slewing o = false) \/
-   (p_mode s = 2 /\ o_slewing o = false /\ step_wait_ns < p_t0 s - o_start o) \/
-   (p_mode s = 3 /\ step_wait_ns < p_t0 s - o_start o)) ->
+  ((p_mode s = 1 /\ p_t0 s = o_start o /\ o_decided o = false /\ o_slewing o = false) \/
+   (p_mode s = 2 /\ o_decided o = true /\ o_slewing o = false) \/
+   (p_mode s = 3 /\ o_decided o = true)) ->
   NI s -> Rel s o.
 Proof. unfold Rel. tauto. Qed.
 
 Ltac rel_intro :=
   apply Rel_intro;
-  cbn [o_started o_mono o_epoch o_prev o_start o_stepped o_slewing p_epoch p_mode p_t0 p_t];
+  cbn [o_started o_mono o_epoch o_prev o_start o_decided o_slewing p_epoch p_mode p_t0 p_t];
   [reflexivity|reflexivity|first [reflexivity|assumption|congruence]|first [reflexivity|assumption]|lia|lia| | ].
 
 Lemma tsub_nonneg a b : b <= a -> 0 <= tsub a b.
 Proof. intros H. unfold tsub. apply sat64_nonneg. lia. Qed.
-
 
 Lemma sync_epoch_fields s u :
   p_epoch (sync_epoch s u) = u_epoch u /\ p_t0 (sync_epoch s u) = p_t0 s /\ p_t (sync_epoch s u) = p_t s /\
@@ -423,17 +429,33 @@ Qed.
 Lemma ost_step_same o u evs :
   o_started o = true -> o_mono o = true -> o_prev o <= u_now u -> o_epoch o = u_epoch u ->
   ost_step o u evs =
-    match evs with
-    | [] => (true, mkOst true true (u_now u) (u_epoch u) (o_start o) (o_stepped o) (o_slewing o))
-    | [e] => (event_ok o u e,
-              mkOst true true (if is_panic e then o_prev o else u_now u) (u_epoch u) (o_start o)
-                    (o_stepped (ost_event o e)) (o_slewing (ost_event o e)))
-    | _ => (false, o)
-    end.
+    let '(ok, dec, sl) := ost_calls o u evs in
+    (ok, mkOst true true (u_now u) (u_epoch u) (o_start o) dec sl).
 Proof.
   intros S M P E. unfold ost_step. rewrite S, M. cbn [negb andb orb].
   destruct (Z.leb_spec (o_prev o) (u_now u)); [|lia]. cbn [negb].
   rewrite E, Z.eqb_refl. reflexivity.
+Qed.
+
+(* the oracle never accepts a panic while the readings are non-decreasing *)
+Lemma ost_step_no_panic o u evs o' :
+  o_mono o = true -> (o_started o = true -> o_prev o <= u_now u) ->
+  ost_step o u evs = (true, o') -> ~ In EPanic evs.
+Proof.
+  intros M P. unfold ost_step. rewrite M. cbn [andb].
+  destruct (o_started o) eqn:S; cbn [negb orb].
+  2:{ destruct evs; [intros _ []|cbn; discriminate]. }
+  specialize (P eq_refl). destruct (Z.leb_spec (o_prev o) (u_now u)); [|lia]. cbn [negb].
+  destruct (negb (o_epoch o =? u_epoch u)).
+  { destruct evs; [intros _ []|cbn; discriminate]. }
+  unfold ost_calls. destruct (negb (o_decided o)).
+  - destruct (step_due o u).
+    + destruct (step_min_ns <? Z.abs (u_off u)).
+      * destruct evs as [|[x|a b c|] [|e2 r]]; try (cbn; discriminate). intros _ [K|[]]. discriminate.
+      * destruct evs; [intros _ []|cbn; discriminate].
+    + destruct evs; [intros _ []|cbn; discriminate].
+  - destruct evs as [|[x|a b c|] [|e2 r]]; try (cbn; discriminate); [intros _ []|].
+    intros _ [K|[]]. discriminate.
 Qed.
 
 Lemma startup_case s o u : p_mode (sync_epoch s u) = 0 -> NI s ->
@@ -448,6 +470,121 @@ Proof.
   - unfold NI in *. cbn [p_a p_b p_i]. rewrite Ea, Eb, Ei. exact HNI.
 Qed.
 
+Lemma case_await_step s o u :
+  o_started o = true -> o_mono o = true -> p_epoch s = o_epoch o -> p_t s = o_prev o ->
+  o_start o <= p_t0 s -> p_t0 s <= p_t s -> NI s ->
+  o_prev o <= u_now u -> in_i64 (u_off u) -> pow_in_unit (u_pow u) = true ->
+  p_epoch s = u_epoch u ->
+  (p_mode s = 1 /\ p_t0 s = o_start o /\ o_decided o = false /\ o_slewing o = false) ->
+  exists s' evs q o', pll_do s u = (s', evs, q) /\ ost_step o u evs = (true, o') /\ Rel s' o'.
+Proof.
+  intros S Mo Ee Et T0a T0b HNI HP Hoff Hw E HMx.
+  assert (Eo : o_epoch o = u_epoch u) by congruence.
+  assert (Hnow : p_t s <= u_now u) by lia.
+  assert (Hm : 0 <= tsub (u_now u) (p_t0 s)) by (apply tsub_nonneg; lia).
+  destruct HMx as [M [T0 [Dc Sl]]].
+  rewrite pll_do_1 by (rewrite (sync_epoch_same s u E); exact M). rewrite (sync_epoch_same s u E).
+  unfold do_await_step.
+  destruct (Z.ltb_spec (tsub (u_now u) (p_t0 s)) 0) as [C|_]; [lia|].
+  assert (SD : ((step_wait_ns <? tsub (u_now u) (p_t0 s)) && fgt (u_weight u) c_3) = step_due o u).
+  { unfold step_due. f_equal. rewrite <- T0. unfold tsub, sat64.
+    pose proof (sat64_range (u_now u - p_t0 s)) as SR. unfold in_i64, sat64, min_i64, max_i64, step_wait_ns, sec_ns in *.
+    destruct (Z.ltb_spec (u_now u - p_t0 s) (-9223372036854775808)); [lia|].
+    destruct (Z.ltb_spec 9223372036854775807 (u_now u - p_t0 s)).
+    - destruct (Z.ltb_spec (2 * 1000000000) 9223372036854775807); [|lia].
+      destruct (Z.ltb_spec (2 * 1000000000) (u_now u - p_t0 s)); [reflexivity|lia].
+    - reflexivity. }
+  rewrite SD. destruct (step_due o u) eqn:Due.
+  2:{ eexists _, _, _, _. split; [reflexivity|]. split.
+      - rewrite (ost_step_same o u _ S Mo HP Eo). unfold ost_calls. rewrite Dc, Due. reflexivity.
+      - unfold set_t. rel_intro; [left; repeat split; assumption|exact HNI]. }
+  rewrite dur_abs_inv by exact Hoff.
+  assert (AB : (step_min_ns <? Z.min (Z.abs (u_off u)) max_i64) = (step_min_ns <? Z.abs (u_off u))).
+  { unfold step_min_ns, max_i64. destruct (Z.ltb_spec 1000000 (Z.abs (u_off u))); destruct (Z.ltb_spec 1000000 (Z.min (Z.abs (u_off u)) 9223372036854775807)); lia. }
+  rewrite AB. destruct (step_min_ns <? Z.abs (u_off u)) eqn:A.
+  + eexists _, _, _, _. split; [reflexivity|]. split.
+    * rewrite (ost_step_same o u _ S Mo HP Eo). unfold ost_calls. rewrite Dc, Due, A. cbn [negb].
+      replace (step_arg_ok (u_off u) (inv (inv (u_off u)))) with true; [reflexivity|].
+      unfold step_arg_ok. destruct (Z.eqb_spec (u_off u) min_i64) as [N|N].
+      -- rewrite N, inv_inv_min, Z.eqb_refl. cbn [andb]. symmetry. apply orb_true_r.
+      -- rewrite inv_inv by assumption. rewrite Z.eqb_refl. reflexivity.
+    * rel_intro; [right; left; repeat split; reflexivity|exact HNI].
+  + eexists _, _, _, _. split; [reflexivity|]. split.
+    * rewrite (ost_step_same o u _ S Mo HP Eo). unfold ost_calls. rewrite Dc, Due, A. reflexivity.
+    * rel_intro; [right; left; repeat split; reflexivity|exact HNI].
+Qed.
+
+Lemma case_await_pll s o u :
+  o_started o = true -> o_mono o = true -> p_epoch s = o_epoch o -> p_t s = o_prev o ->
+  o_start o <= p_t0 s -> p_t0 s <= p_t s -> NI s ->
+  o_prev o <= u_now u -> in_i64 (u_off u) -> pow_in_unit (u_pow u) = true ->
+  p_epoch s = u_epoch u ->
+  (p_mode s = 2 /\ o_decided o = true /\ o_slewing o = false) ->
+  exists s' evs q o', pll_do s u = (s', evs, q) /\ ost_step o u evs = (true, o') /\ Rel s' o'.
+Proof.
+  intros S Mo Ee Et T0a T0b HNI HP Hoff Hw E HMx.
+  assert (Eo : o_epoch o = u_epoch u) by congruence.
+  assert (Hnow : p_t s <= u_now u) by lia.
+  assert (Hm : 0 <= tsub (u_now u) (p_t0 s)) by (apply tsub_nonneg; lia).
+  destruct HMx as [M [Dc Sl]].
+  rewrite pll_do_2 by (rewrite (sync_epoch_same s u E); exact M). rewrite (sync_epoch_same s u E).
+  unfold do_await_pll.
+  destruct (Z.ltb_spec (tsub (u_now u) (p_t0 s)) 0) as [C|_]; [lia|].
+  destruct (Z.ltb_spec pll_wait_ns (tsub (u_now u) (p_t0 s))) as [W6|W6].
+  + eexists _, _, _, _. split; [reflexivity|]. split.
+    * rewrite (ost_step_same o u _ S Mo HP Eo). unfold ost_calls. rewrite Dc, Sl. reflexivity.
+    * rel_intro; [right; right; split; reflexivity|].
+      destruct HNI as [_ [_ [_ [_ HI]]]]. unfold NI. cbn [p_a p_b p_i].
+      destruct c_pinit_b as [F1 B1]. destruct c_binit_b as [F2 B2]. tauto.
+  + eexists _, _, _, _. split; [reflexivity|]. split.
+    * rewrite (ost_step_same o u _ S Mo HP Eo). unfold ost_calls. rewrite Dc, Sl. reflexivity.
+    * unfold set_t. rel_intro; [right; left; repeat split; assumption|exact HNI].
+Qed.
+
+Lemma case_track s o u :
+  o_started o = true -> o_mono o = true -> p_epoch s = o_epoch o -> p_t s = o_prev o ->
+  o_start o <= p_t0 s -> p_t0 s <= p_t s -> NI s ->
+  o_prev o <= u_now u -> in_i64 (u_off u) -> pow_in_unit (u_pow u) = true ->
+  p_epoch s = u_epoch u ->
+  (p_mode s = 3 /\ o_decided o = true) ->
+  exists s' evs q o', pll_do s u = (s', evs, q) /\ ost_step o u evs = (true, o') /\ Rel s' o'.
+Proof.
+  intros S Mo Ee Et T0a T0b HNI HP Hoff Hw E HMx.
+  assert (Eo : o_epoch o = u_epoch u) by congruence.
+  assert (Hnow : p_t s <= u_now u) by lia.
+  assert (Hm : 0 <= tsub (u_now u) (p_t0 s)) by (apply tsub_nonneg; lia).
+  destruct HMx as [M Dc].
+  rewrite pll_do_3 by (rewrite (sync_epoch_same s u E); exact M). rewrite (sync_epoch_same s u E).
+  assert (Hg : 0 <= tsub (u_now u) (p_t s)) by (apply tsub_nonneg; lia).
+  destruct (track_numeric s u (inv (u_off u)) HNI Hw (inv_in_i64 _ Hoff) Hm Hg)
+    as [s' [evs [q [ED [HNI' [M' [T0' [T' [E' HE]]]]]]]]].
+  exists s', evs, q. destruct HE as [[-> G0]|[oo [d [f [-> [Ff HN]]]]]].
+  + eexists. split; [exact ED|]. split.
+    * rewrite (ost_step_same o u _ S Mo HP Eo). unfold ost_calls. rewrite Dc. cbn [negb].
+      assert (NP : (u_now u <=? o_prev o) = true).
+      { apply Z.leb_le. unfold tsub in G0. rewrite Et in G0.
+        destruct (Z_le_gt_dec (u_now u) (o_prev o)) as [L|L]; [exact L|exfalso].
+        assert (0 < sat64 (u_now u - o_prev o)); [|lia].
+        unfold sat64, min_i64, max_i64.
+        destruct (Z.ltb_spec (u_now u - o_prev o) (-9223372036854775808)); [lia|].
+        destruct (Z.ltb_spec 9223372036854775807 (u_now u - o_prev o)); lia. }
+      rewrite NP, orb_true_r. reflexivity.
+    * apply Rel_intro; cbn [o_started o_mono o_epoch o_prev o_start o_decided o_slewing]; rewrite ?M', ?T0', ?T', ?E';
+        [reflexivity|reflexivity|assumption|reflexivity|lia|lia|right; right; split; reflexivity|exact HNI'].
+  + eexists. split; [exact ED|]. split.
+    * rewrite (ost_step_same o u _ S Mo HP Eo). unfold ost_calls. rewrite Dc. cbn [negb].
+      replace (adjust_ok o u oo d f) with true; [reflexivity|]. symmetry.
+      unfold adjust_ok. rewrite Ff. cbn [andb].
+      destruct (Z.ltb_spec (u_now u - o_prev o) max_gap_ns) as [Gp|Gp]; [|reflexivity].
+      assert (Eg : tsub (u_now u) (p_t s) = u_now u - o_prev o).
+      { unfold tsub. rewrite Et. apply sat64_small. unfold max_gap_ns, sec_ns, max_i64 in *. lia. }
+      rewrite Eg in HN. destruct (HN Gp) as [N1 [N2 N3]].
+      destruct (Z.ltb_spec 0 d); [|unfold sec_ns in *; lia]. destruct (Z.leb_spec d (sec_ns * ceil_div (u_now u - o_prev o) sec_ns)); [|lia].
+      destruct (Z.leb_spec (2000 * Z.abs oo) d); [|lia]. reflexivity.
+    * apply Rel_intro; cbn [o_started o_mono o_epoch o_prev o_start o_decided o_slewing]; rewrite ?M', ?T0', ?T', ?E';
+        [reflexivity|reflexivity|assumption|reflexivity|lia|lia|right; right; split; reflexivity|exact HNI'].
+Qed.
+
 Lemma inv_step s o u : (Rel0 s o \/ Rel s o) -> (o_started o = true -> o_prev o <= u_now u) -> upd_ok u ->
   exists s' evs q o', pll_do s u = (s', evs, q) /\ ost_step o u evs = (true, o') /\ Rel s' o'.
 Proof.
@@ -458,67 +595,10 @@ Proof.
   destruct (Z.eq_dec (p_epoch s) (u_epoch u)) as [E|E].
   2:{ apply startup_case; [apply sync_epoch_diff_mode; exact E|exact HNI|].
       apply ost_step_restart. right. repeat split; try assumption. congruence. }
-  assert (Eo : o_epoch o = u_epoch u) by congruence.
-  assert (Hnow : p_t s <= u_now u) by lia.
-  assert (Hm : 0 <= tsub (u_now u) (p_t0 s)) by (apply tsub_nonneg; lia).
-  destruct HM as [[M [T0 [St Sl]]]|[[M [Sl W]]|[M W]]].
-  - (* awaiting step *)
-    rewrite pll_do_1 by (rewrite (sync_epoch_same s u E); exact M). rewrite (sync_epoch_same s u E).
-    unfold do_await_step.
-    destruct (Z.ltb_spec (tsub (u_now u) (p_t0 s)) 0) as [C|_]; [lia|].
-    destruct (Z.ltb_spec step_wait_ns (tsub (u_now u) (p_t0 s))) as [W|W]; cbn [andb].
-    2:{ eexists _, _, _, _. split; [reflexivity|]. split; [apply (ost_step_same o u []); assumption|].
-        unfold set_t. rel_intro; [left; repeat split; assumption|exact HNI]. }
-    assert (W' : step_wait_ns < u_now u - o_start o).
-    { rewrite <- T0. apply sat64_gt; [unfold step_wait_ns, sec_ns; lia|exact W]. }
-    destruct (fgt (u_weight u) c_3) eqn:G.
-    2:{ eexists _, _, _, _. split; [reflexivity|]. split; [apply (ost_step_same o u []); assumption|].
-        unfold set_t. rel_intro; [left; repeat split; assumption|exact HNI]. }
-    destruct (Z.ltb_spec step_min_ns (dur_abs (inv (u_off u)))) as [A|A].
-    + eexists _, _, _, _. split; [reflexivity|]. split.
-      * rewrite (ost_step_same o u _ S Mo HP Eo). cbn [is_panic ost_event o_stepped o_slewing].
-        f_equal. unfold event_ok. rewrite St, Sl, G. cbn [negb andb].
-        destruct (Z.ltb_spec step_wait_ns (u_now u - o_start o)); [|lia]. cbn [andb].
-        rewrite dur_abs_inv in A by exact Hoff.
-        destruct (Z.ltb_spec step_min_ns (Z.abs (u_off u))); [|unfold max_i64, step_min_ns in *; lia]. cbn [andb].
-        unfold step_arg_ok. destruct (Z.eqb_spec (u_off u) min_i64) as [N|N].
-        -- rewrite N, inv_inv_min, Z.eqb_refl. cbn [andb]. apply orb_true_r.
-        -- rewrite inv_inv by assumption. rewrite Z.eqb_refl. reflexivity.
-      * rel_intro; [right; left; repeat split; [exact Sl|lia]|exact HNI].
-    + eexists _, _, _, _. split; [reflexivity|]. split; [apply (ost_step_same o u []); assumption|].
-      rel_intro; [right; left; repeat split; [exact Sl|lia]|exact HNI].
-  - (* awaiting PLL *)
-    rewrite pll_do_2 by (rewrite (sync_epoch_same s u E); exact M). rewrite (sync_epoch_same s u E).
-    unfold do_await_pll.
-    destruct (Z.ltb_spec (tsub (u_now u) (p_t0 s)) 0) as [C|_]; [lia|].
-    destruct (Z.ltb_spec pll_wait_ns (tsub (u_now u) (p_t0 s))) as [W6|W6].
-    + eexists _, _, _, _. split; [reflexivity|]. split; [apply (ost_step_same o u []); assumption|].
-      rel_intro; [right; right; split; [reflexivity|lia]|].
-      destruct HNI as [_ [_ [_ [_ HI]]]]. unfold NI. cbn [p_a p_b p_i].
-      destruct c_pinit_b as [F1 B1]. destruct c_binit_b as [F2 B2]. tauto.
-    + eexists _, _, _, _. split; [reflexivity|]. split; [apply (ost_step_same o u []); assumption|].
-      unfold set_t. rel_intro; [right; left; repeat split; assumption|exact HNI].
-  - (* tracking *)
-    rewrite pll_do_3 by (rewrite (sync_epoch_same s u E); exact M). rewrite (sync_epoch_same s u E).
-    assert (Hg : 0 <= tsub (u_now u) (p_t s)) by (apply tsub_nonneg; lia).
-    destruct (track_numeric s u (inv (u_off u)) HNI Hw (inv_in_i64 _ Hoff) Hm Hg)
-      as [s' [evs [q [ED [HNI' [M' [T0' [T' [E' HE]]]]]]]]].
-    exists s', evs, q. destruct HE as [->|[oo [d [f [-> [Ff HN]]]]]].
-    + eexists. split; [exact ED|]. split; [apply (ost_step_same o u []); assumption|].
-      apply Rel_intro; cbn [o_started o_mono o_epoch o_prev o_start o_stepped o_slewing]; rewrite ?M', ?T0', ?T', ?E';
-        [reflexivity|reflexivity|assumption|reflexivity|lia|lia|right; right; split; [reflexivity|exact W]|exact HNI'].
-    + eexists. split; [exact ED|]. split.
-      * rewrite (ost_step_same o u _ S Mo HP Eo). cbn [is_panic ost_event o_stepped o_slewing].
-        f_equal. unfold event_ok. rewrite Ff.
-        destruct (Z.ltb_spec step_wait_ns (u_now u - o_start o)); [|lia]. cbn [andb].
-        destruct (Z.ltb_spec (u_now u - o_prev o) max_gap_ns) as [Gp|Gp]; [|reflexivity].
-        assert (Eg : tsub (u_now u) (p_t s) = u_now u - o_prev o).
-        { unfold tsub. rewrite Et. apply sat64_small. unfold max_gap_ns, sec_ns, max_i64 in *. lia. }
-        rewrite Eg in HN. destruct (HN Gp) as [N1 [N2 N3]].
-        destruct (Z.ltb_spec 0 d); [|unfold sec_ns in *; lia]. destruct (Z.leb_spec d (sec_ns * ceil_div (u_now u - o_prev o) sec_ns)); [|lia].
-        destruct (Z.leb_spec (2000 * Z.abs oo) d); [|lia]. reflexivity.
-      * apply Rel_intro; cbn [o_started o_mono o_epoch o_prev o_start o_stepped o_slewing]; rewrite ?M', ?T0', ?T', ?E';
-          [reflexivity|reflexivity|assumption|reflexivity|lia|lia|right; right; split; [reflexivity|exact W]|exact HNI'].
+  destruct HM as [HM|[HM|HM]].
+  - apply case_await_step; assumption.
+  - apply case_await_pll; assumption.
+  - apply case_track; assumption.
 Qed.
 
 Lemma Rel_prev s o : Rel s o -> o_started o = true /\ o_prev o = p_t s.
@@ -549,15 +629,8 @@ Proof.
   destruct (inv_step s o u HR HP (conj Hoff Hw)) as [s2 [evs2 [q2 [o2 [ED2 [HO2 _]]]]]].
   rewrite ED in ED2. injection ED2 as <- <- <-.
   (* a panic is never accepted by the oracle in a monotone history *)
-  revert HO2. unfold ost_step.
-  destruct HR as [[-> _]|[S [Mo _]]].
-  - cbn. destruct evs as [|e [|e2 r]]; try discriminate. destruct K.
-  - rewrite S, Mo. cbn [negb andb orb]. specialize (HP S).
-    destruct (Z.leb_spec (o_prev o) (u_now u)); [|lia]. cbn [negb].
-    destruct (negb (o_epoch o =? u_epoch u)).
-    + destruct evs; [destruct K|discriminate].
-    + destruct evs as [|e [|e2 r]]; [destruct K| |discriminate].
-      destruct K as [->|[]]. cbn [event_ok]. discriminate.
+  apply (ost_step_no_panic o u evs o2); [|exact HP|exact HO2|exact K].
+  destruct HR as [[-> _]|[_ [Mo _]]]; [reflexivity|exact Mo].
 Qed.
 
 (* main history theorem: for every history with non-decreasing readings, int64
@@ -640,7 +713,7 @@ Proof.
   destruct (track_numeric s u (inv (u_off u)) HNI Hw (inv_in_i64 _ Hoff) Hm Hg)
     as [s' [evs [q [ED [_ [_ [_ [_ [_ HE]]]]]]]]].
   rewrite ED. unfold events. cbn [fst snd].
-  destruct HE as [->|[oo [dd [ff [-> [Ff HN]]]]]]; [intros []|].
+  destruct HE as [[-> _]|[oo [dd [ff [-> [Ff HN]]]]]]; [intros []|].
   intros [H|[]]. injection H as -> -> ->.
   unfold adjust_sane. split; [exact Ff|]. split; [lia|]. intros Gp.
   assert (Eg : tsub (u_now u) (p_t s) = u_now u - p_t s).
@@ -655,15 +728,8 @@ Proof.
   intros HR HP Hu K.
   destruct (inv_step s ost u HR HP Hu) as [s2 [evs2 [q2 [o2 [ED2 [HO2 _]]]]]].
   rewrite ED2 in K. unfold events in K. cbn [fst snd] in K.
-  revert HO2. unfold ost_step.
-  destruct HR as [[-> _]|[S [Mo _]]].
-  - cbn. destruct evs2 as [|e [|e2 r]]; try discriminate. destruct K.
-  - rewrite S, Mo. cbn [negb andb orb]. specialize (HP S).
-    destruct (Z.leb_spec (o_prev ost) (u_now u)); [|lia]. cbn [negb].
-    destruct (negb (o_epoch ost =? u_epoch u)).
-    + destruct evs2; [destruct K|discriminate].
-    + destruct evs2 as [|e [|e2 r]]; [destruct K| |discriminate].
-      destruct K as [->|[]]. cbn [event_ok]. discriminate.
+  apply (ost_step_no_panic ost u evs2 o2); [|exact HP|exact HO2|exact K].
+  destruct HR as [[-> _]|[_ [Mo _]]]; [reflexivity|exact Mo].
 Qed.
 
 (* the invariant holds after every prefix of an admissible history *)
